@@ -72,10 +72,11 @@ class Ref:
 
 
 class System:
-    def __init__(self, dt, delays):
+    def __init__(self, dt, delays, warm=False):
         self.dt = dt
         self.fdt = Fraction(str(dt))
         self.delays = delays
+        self.warm = warm       # the search starts after one event was delivered (whatever the library builds lazily exists by then)
 
     def new(self):
         m = _mk_model(self.dt)
@@ -83,6 +84,9 @@ class System:
         for t in ("a", "a", "b"):
             ag = m.create_agent(t, None)
             self._born(ref, ag.id, t)
+        if self.warm:
+            self._send(m, ref, 0, None)
+            self._step(m, ref)
         return m, ref
 
     @staticmethod
@@ -121,6 +125,8 @@ class System:
         for i in two:
             for d in (None, self.delays[2] if len(self.delays) > 2 else self.delays[-1]):
                 ops.append(["send2", i, d])
+        for i in two[:2]:
+            ops.append(["sendn", i])       # an event of a kind the receiver has no handler for (it is nobody's business; the others still are)
         return ops
 
     def _due(self, ref, delay):
@@ -158,6 +164,9 @@ class System:
             elif k == "send2":
                 self._send(m, ref, op[1], op[2])
                 self._send(m, ref, op[1], op[2])
+            elif k == "sendn":
+                from BPTK_Py import Event
+                m.enqueue_event(Event("noise", 0, op[1], data=-1))
             elif k == "step":
                 viol += self._step(m, ref)
             elif k == "sstep":
@@ -246,18 +255,19 @@ class System:
         pend = tuple(sorted((p[0] - ref.tick, p[1], p[3] - ref.tick) for p in ref.pending))
         order = tuple(p[1] for p in sorted(ref.pending, key=lambda p: p[2]))
         q = tuple((getattr(e, "receiver_id", None), round(getattr(e, "delay", -1.0), 9)) for e in m.events)
-        return (tuple(ref.live.items()), m.next_agent_id, pend, order, q, ref.crashed)
+        hidden = (explore.hidden_shape(m, skip=("hlog", "send_plan", "kill_plan")), explore.hidden_shape(m.scheduler))
+        return (tuple(ref.live.items()), m.next_agent_id, pend, order, q, ref.crashed, hidden)
 
 
 SYSTEMS = {}
 
 
-def get_system(dt):
-    if dt not in SYSTEMS:
+def get_system(dt, warm=False):
+    if (dt, warm) not in SYSTEMS:
         d = Fraction(str(dt))
         delays = [None, float(d), float(2 * d), float(3 * d), 0.7] + ([0.3, 1.0] if dt in (0.1, 0.25) else [])
-        SYSTEMS[dt] = System(dt, delays)
-    return SYSTEMS[dt]
+        SYSTEMS[(dt, warm)] = System(dt, delays, warm)
+    return SYSTEMS[(dt, warm)]
 
 
 def expand_with_flush(system, hists):
@@ -281,12 +291,12 @@ def expand_with_flush(system, hists):
 
 
 def _worker(arg):
-    dt, hists = arg
-    return expand_with_flush(get_system(dt), hists)
+    dt, warm, hists = arg
+    return expand_with_flush(get_system(dt, warm), hists)
 
 
-def bfs(dt, depth):
-    system = get_system(dt)
+def bfs(dt, depth, warm=False):
+    system = get_system(dt, warm)
     res = explore.BfsResult()
     impl, ref = system.new()
     seen = {system.key(impl, ref)}
@@ -297,7 +307,7 @@ def bfs(dt, depth):
             break
         if len(level) >= 32:
             parts = core.chunks(level, core.nworkers() * 4)
-            results = [r for part in core.pmap(_worker, [(dt, p) for p in parts]) for r in part]
+            results = [r for part in core.pmap(_worker, [(dt, warm, p) for p in parts]) for r in part]
         else:
             results = expand_with_flush(system, level)
         nxt = []
@@ -333,18 +343,26 @@ def run(ctx):
         per_dt[str(dt)] = {"states": res.states, "transitions": res.transitions, "levels": res.per_level}
         for sig, hist, detail in res.violations:
             ctx.violation("C11/%s/dt=%r" % (sig, dt), {"dt": dt, "history": hist}, detail)
+    # the same search from a non-initial state: one event has already been delivered
+    for dt in (dts if ctx.tier == "thorough" else [d for d in dts if d in (1, 0.25)]):
+        res = bfs(dt, depth, warm=True)
+        tot_s += res.states
+        tot_t += res.transitions
+        per_dt["%s/warm-root" % dt] = {"states": res.states, "transitions": res.transitions, "levels": res.per_level}
+        for sig, hist, detail in res.violations:
+            ctx.violation("C11/warm-root/%s/dt=%r" % (sig, dt), {"dt": dt, "history": hist, "warm": True}, detail)
     ctx.finish({
         "states": tot_s, "transitions": tot_t, "traces_validated_against_impl": tot_t,
         "samples": samples, "depth": depth, "per_dt": per_dt,
-        "rule": "BFS over create/delete(live+dead)/reconfigure/send(receiver over all ids ever issued, delay menu)/send2/step from a "
-                "3-agent population, each reached history additionally flushed step by step until all events are past due; "
+        "rule": "BFS over create/delete(live+dead)/reconfigure/send(receiver over all ids ever issued, delay menu)/send2/send of an event kind "
+                "without handler/step/step with a send or a deletion from inside act() from a 3-agent population, and again from the state after a first delivery, each reached history additionally flushed step by step until all events are past due; "
                 "reference due step = send tick + ceil(delay/dt) in exact rationals",
     }, assumptions=["events are sent between steps (model.enqueue_event); handlers registered for the agents' only state",
                     "order is judged only among events sent in the same step to the same receiver (as the statement says)"])
 
 
 def replay(case):
-    system = get_system(case["dt"])
+    system = get_system(case["dt"], bool(case.get("warm")))
     m, ref = system.new()
     for op in case["history"]:
         v = system.apply(m, ref, op)
